@@ -8,6 +8,7 @@ sys.path.insert(0, os.path.dirname(os.path.abspath(__file__)))
 from common import BUILD_DIR  # noqa: E402
 
 RULES = {
+    "codecs": "exhaustive domains: all 256 values of the two trigger flag bytes, the 16-bit flag words (thorough: all 65536 per codec; quick: 4096 low + 4096 random + boundaries), all 2^k rich flag values per codec, every enum over [0,1024) (thorough [0,65536)) plus every member and neighbours and width boundaries, AI tags: every known tag, its case variants and near misses, each UTF-8 length pattern, each invalid pattern, random tags; hit points [0,2^14) (thorough [0,2^20)), all 2^k and 2^k+-1, stratified random u32; decimal hit points with 0..4 decimals; CUWP flag words through the UPRP section transcoder.  Each value goes through the real helper and the Lean driver; distinct_nontrivial counts distinct (op, value) pairs",
     "bytelayer": "cases = regression corpus + fixture CHKs + generated chunk lists (names: registered/enum-only/ASCII/multi-byte UTF-8/invalid UTF-8; recognised payloads at every legal size with edge-heavy, random and sentinel bytes; STR tables with shared/unsorted/interior/dangling offsets and trailing empty strings) + for C19 a malformed stream (random, truncations at and around chunk boundaries, single-byte corruptions, oversize size fields, short/long fixed sections, non-7-bit string bytes); each case is run through the real ChkIo and the Lean driver (ops rt, dec) and the property oracle; distinct_nontrivial = number of distinct (tag, input bytes) pairs",
 }
 
@@ -25,6 +26,11 @@ def main():
         else:
             out = bytelayer.run(prop, tier, seed, os.path.join(BUILD_DIR, "layouts.json"))
         rule = RULES["bytelayer"]
+    elif prop == "C12":
+        import codecs_h
+
+        out = codecs_h.run(prop, tier, seed)
+        rule = RULES["codecs"]
     else:
         raise SystemExit("no harness for " + prop)
     res = {
